@@ -17,7 +17,9 @@ attribute [local instance] specMsg
 /-! ### the header definitions -/
 
 theorem Tr.defs_nil {q : Q} {A : Query} (h : Tr q A) : A.defs = [] := by
-  cases h <;> rfl
+  induction h with
+  | delay _ ih => exact ih
+  | _ => rfl
 
 theorem eval_withDefs (N : Nat) (cfg : Spec.Cfg) (env : Spec.Env) (A : Query) (ds : List FuncDef) (s : Spec.St)
     (h : A.defs = []) : Spec.eval N cfg env (A.withDefs ds) s = Spec.eval N cfg (env.defs ds) A s := by
@@ -52,6 +54,7 @@ theorem defs_defsFrom (body : Nat → Query) : ∀ (Bs : List Query) (i : Nat),
 
 /-! ### the side conditions -/
 
+mutual
 theorem closed_of_callsBelow {nf k : Nat} : ∀ (q : Q) (vs : List Nat), q.Closed nf vs → callsBelow k q = true → q.Closed k vs
   | .id, _, _, _ => trivial
   | .const _, _, _, _ => trivial
@@ -93,6 +96,30 @@ theorem closed_of_callsBelow {nf k : Nat} : ∀ (q : Q) (vs : List Nat), q.Close
     simp only [callsBelow, Bool.and_eq_true] at hc
     exact ⟨closed_of_callsBelow a vs h.1 hc.1.1.1, closed_of_callsBelow b vs h.2.1 hc.1.1.2,
       closed_of_callsBelow c (x :: vs) h.2.2.1 hc.1.2, closed_of_callsBelow d (x :: vs) h.2.2.2 hc.2⟩
+  | .obj sp, vs, h, hc => by
+    simp only [callsBelow] at hc
+    exact ⟨closed_of_spineCallsBelow sp vs h.1 hc, h.2⟩
+  | .objStart, _, _, hc => by simp [callsBelow] at hc
+  | .objSnoc _ _ _, _, _, hc => by simp [callsBelow] at hc
+  | .objSnocC _ _ _, _, _, hc => by simp [callsBelow] at hc
+  | .delay q, vs, h, hc => by
+    simp only [callsBelow] at hc
+    exact closed_of_callsBelow q vs h hc
+theorem closed_of_spineCallsBelow {nf k : Nat} : ∀ (q : Q) (vs : List Nat), q.Closed nf vs → spineCallsBelow k q = true → q.Closed k vs
+  | .objStart, _, _, _ => trivial
+  | .objSnoc init kq v, vs, h, hc => by
+    simp only [spineCallsBelow, Bool.and_eq_true] at hc
+    exact ⟨closed_of_spineCallsBelow init vs h.1 hc.1.1, closed_of_callsBelow kq vs h.2.1 hc.1.2,
+      closed_of_callsBelow v vs h.2.2 hc.2⟩
+  | .objSnocC init _ v, vs, h, hc => by
+    simp only [spineCallsBelow, Bool.and_eq_true] at hc
+    exact ⟨closed_of_spineCallsBelow init vs h.1 hc.1, closed_of_callsBelow v vs h.2 hc.2⟩
+  | .id, _, _, hc | .const _, _, _, hc | .pipe _ _, _, _, hc | .comma _ _, _, _, hc | .iter, _, _, hc
+  | .empty, _, _, hc | .arr _, _, _, hc | .param, _, _, hc | .call1 _ _, _, _, hc | .error, _, _, hc
+  | .try_ _, _, _, hc | .tryCatch _ _, _, _, hc | .index _, _, _, hc | .ite _ _ _, _, _, hc | .alt _ _, _, _, hc
+  | .var _, _, _, hc | .bind _ _ _, _, _, hc | .reduce _ _ _ _, _, _, hc | .foreach _ _ _ _ _, _, _, hc
+  | .obj _, _, _, hc | .delay _, _, _, hc => by simp [spineCallsBelow] at hc
+end
 
 theorem orderedFrom_get : ∀ (qs : List Q) (i : Nat), orderedFrom i qs = true →
     ∀ j (h : j < qs.length), callsBelow (i + j + 1) qs[j] = true
@@ -145,6 +172,11 @@ theorem Tr_toQuery : ∀ (q : Q), qLitOK q = true → Tr q (toQuery q)
   | .foreach x a b c d, h => by
     simp only [qLitOK, Bool.and_eq_true] at h
     exact .foreach x (Tr_toQuery a h.1.1.1) (Tr_toQuery b h.1.1.2) (Tr_toQuery c h.1.2) (Tr_toQuery d h.2)
+  | .obj _, h => by simp [qLitOK] at h
+  | .objStart, h => by simp [qLitOK] at h
+  | .objSnoc _ _ _, h => by simp [qLitOK] at h
+  | .objSnocC _ _ _, h => by simp [qLitOK] at h
+  | .delay q, h => .delay (Tr_toQuery q h)
 
 /-- `toSyntax p` is a reading of `p` -/
 theorem trProg_toSyntax (p : Prog) (hok : tieOK p = true) : TrProg p (p.defs.map toQuery) (toQuery p.main) := by
